@@ -166,6 +166,33 @@ func genC18(e *emitter, tier string) {
 		e.emit(loadCase("mutate:typed", mut(func(mp *onnx.ModelProto) { mp.Graph.Initializer[ti].Int32Data = []int32{1, 2} }), ""))
 		e.emit(loadCase("mutate:typed", mut(func(mp *onnx.ModelProto) { mp.Graph.Initializer[ti].Uint64Data = []uint64{1, 2, 3, 4} }), ""))
 	}
+	// an initializer that is also listed as a graph input (IR < 4 exports), with a value-info that agrees,
+	// disagrees in rank / extent, is symbolic, or carries no shape at all
+	declSet := [][]any{{}, {1}, {2}, {3}, {2, 2}, {1, 2}, {2, 2, 1}, {1, 2, 2}, {3, 1}, {"N"}, {"N", 2}, {nil, nil, nil}, {0, 5}, {4, 4, 4, 4}}
+	for ti := 0; ti < 3; ti++ {
+		for _, dims := range declSet {
+			dims := dims
+			e.emit(loadCase("mutate:init-as-input", mut(func(mp *onnx.ModelProto) {
+				mp.Graph.Input = append(mp.Graph.Input, mkValueInfo(VInfoJ{Name: mp.Graph.Initializer[ti].Name, Dt: "f32", Dims: dims}))
+			}), fmt.Sprint(ti, dims)))
+		}
+		for _, how := range []string{"", "tensor", "shape", "dims"} {
+			how := how
+			e.emit(loadCase("mutate:init-as-input", mut(func(mp *onnx.ModelProto) {
+				mp.Graph.Input = append(mp.Graph.Input, mkValueInfo(VInfoJ{Name: mp.Graph.Initializer[ti].Name, NoShape: true, How: how}))
+			}), fmt.Sprint(ti, "no shape ", how)))
+		}
+	}
+	// scalar initializers, alone and listed as inputs of rank 0 / 1
+	for _, dims := range [][]any{nil, {}, {1}, {1, 1}} {
+		dims := dims
+		e.emit(loadCase("mutate:init-as-input", mut(func(mp *onnx.ModelProto) {
+			mp.Graph.Initializer = append(mp.Graph.Initializer, mkTensorProto("s", vals("f32", []int{}, 3), false))
+			if dims != nil {
+				mp.Graph.Input = append(mp.Graph.Input, mkValueInfo(VInfoJ{Name: "s", Dt: "f32", Dims: dims}))
+			}
+		}), fmt.Sprint("scalar ", dims)))
+	}
 	e.emit(loadCase("mutate:graph", mut(func(mp *onnx.ModelProto) { mp.Graph = nil }), "no graph"))
 	e.emit(loadCase("mutate:graph", mut(func(mp *onnx.ModelProto) { mp.Graph.Initializer = append(mp.Graph.Initializer, &onnx.TensorProto{}) }), "empty initializer"))
 	e.emit(loadCase("mutate:graph", mut(func(mp *onnx.ModelProto) { mp.Graph.Input[0].Type = nil }), "input without type"))
